@@ -296,10 +296,11 @@ func c06RolesJob(tier string) *SeqJob {
 			return
 		}
 	}
-	j := &SeqJob{Property: "C06", Name: "name-key-value-call-histories"}
+	j := &SeqJob{Property: "C06", Name: "name-key-value-call-histories", Shards: tierInt(tier, 2, 8)}
 	j.Run = func(ctx *SeqCtx) {
 		for ci := range cfgs {
 			ctx.OpsPrefix = []string{fmt.Sprint(ci)}
+			ctx.ResetSeen() // the keys of different configurations cannot meet
 			bfs(ctx, alphabet, depth, exec(ci))
 			if ctx.viol != nil {
 				return
